@@ -221,6 +221,68 @@ func holdsKey(v reflect.Value) bool {
 	return false
 }
 
+// extDoc: an extension config document with 0..4 TLS contexts, each with its own marker: at the top, as sibling members,
+// inside arrays (a list of agents each with its own tls_context), deep below other members, and nested inside each other;
+// the key is spelled in the three cases encoding/json accepts; now and then private_key is not a string.
+func (f *filler) extDoc(typ string) []byte {
+	r := f.r
+	base := "ExtendConfigs[" + typ + "].Config:json:"
+	keyName := func() string { return []string{"private_key", "private_key", "private_key", "Private_Key", "PRIVATE_KEY"}[r.Intn(5)] }
+	var ctx func(where string, depth int) map[string]interface{}
+	ctx = func(where string, depth int) map[string]interface{} {
+		m := map[string]interface{}{"status": true, "server_name": f.uniq("sn")}
+		switch r.Intn(10) {
+		case 0:
+			m[keyName()] = ""
+		case 1: // not a string: the walk goes on below it
+			m["private_key"] = map[string]interface{}{"private_key": f.newMarker(base + where + ".under-non-string-key")}
+		default:
+			m[keyName()] = f.newMarker(base + where)
+		}
+		if depth < 2 && r.Pct(25) {
+			m["inner"] = map[string]interface{}{"tls_context": ctx(where+".nested", depth+1)}
+		}
+		return m
+	}
+	doc := map[string]interface{}{"enable": false, f.uniq("k"): f.anyJSON(0), "n": json.Number("12345678901234567")}
+	n := r.Intn(5)
+	var agents []interface{}
+	for i := 0; i < n; i++ {
+		switch r.Intn(5) {
+		case 0:
+			doc["tls_context"] = ctx("top", 0)
+		case 1:
+			agents = append(agents, map[string]interface{}{"name": f.uniq("agent"), "tls_context": ctx("array-element", 0)})
+		case 2:
+			doc[fmt.Sprintf("ctx_%c", 'a'+i)] = ctx("sibling-member", 0)
+		case 3:
+			doc[fmt.Sprintf("level1_%d", i)] = map[string]interface{}{"level2": []interface{}{f.anyJSON(1), map[string]interface{}{"tls_context": ctx("deep", 0)}}}
+		default:
+			agents = append(agents, []interface{}{ctx("array-in-array", 0), f.anyJSON(1)})
+		}
+	}
+	if agents != nil {
+		doc["agents"] = agents
+	}
+	b, _ := json.Marshal(doc)
+	return b
+}
+
+// canonDoc: the document with object members in sorted order (what a re-marshal through map[string]interface{} gives)
+func canonDoc(b []byte) []byte {
+	var v interface{}
+	dec := json.NewDecoder(strings.NewReader(string(b)))
+	dec.UseNumber()
+	if dec.Decode(&v) != nil {
+		return b
+	}
+	o, err := json.Marshal(v)
+	if err != nil {
+		return b
+	}
+	return o
+}
+
 type history struct {
 	Ops []string `json:"ops"`
 }
@@ -231,7 +293,7 @@ func c20(args []string) int {
 	seedMix := NewRng(run.Seed)
 	r := NewRng(seedMix.U64() ^ (seedMix.U64() << 1) ^ 0xC20)
 	log.DefaultLogger.SetLogLevel(log.FATAL)
-	run.Sum.Rule = "configurations: reflect-random values of the real config types (nil/empty/1-2 element slices and maps, nil/non-nil pointers, both TLS shapes of a filter chain, cluster and cluster-manager TLS, tunnel_agent/unknown extension configs), a distinct marker secret at EVERY v2.TLSConfig the types contain (85% non-empty); histories: 3-14 real setter calls (SetMosnConfig/SetListenerConfig/SetClusterConfig/SetRemoveClusterConfig/SetHosts/SetRouter/SetExtend/SetClusterManagerTLS) interleaved with transferConfig and file dumps; then EVERY query variant of admin ConfigDump incl. one name per router/cluster/listener, a missing name, an unknown key, two keys and POST. A case (= one endpoint call) is non-trivial when the live config holds at least one marker reachable from that endpoint; distinct by (history shape, endpoint kind, marker classes)."
+	run.Sum.Rule = "configurations: reflect-random values of the real config types (nil/empty/1-2 element slices and maps, nil/non-nil pointers, both TLS shapes of a filter chain, cluster and cluster-manager TLS, tunnel_agent/unknown extension configs, extension JSON documents with 0-4 TLS contexts at the top / as sibling members / in arrays / deep / nested in each other with the key in three spellings and now and then a non-string private_key), a distinct marker secret at EVERY v2.TLSConfig the types contain (85% non-empty); histories: 3-14 real setter calls (SetMosnConfig/SetListenerConfig/SetClusterConfig/SetRemoveClusterConfig/SetHosts/SetRouter/SetExtend/SetClusterManagerTLS) interleaved with transferConfig and file dumps; then EVERY query variant of admin ConfigDump (the full dump six times: the JSON redactor ranges over Go maps) incl. one name per router/cluster/listener, a missing name, an unknown key, two keys and POST. A case (= one endpoint call) is non-trivial when the live config holds at least one marker reachable from that endpoint; distinct by (history shape, endpoint kind, marker classes)."
 	placeholder := configmanager.VerifPlaceholder()
 	tmpRoot := filepath.Join(run.Out, "cfgdir")
 	os.MkdirAll(tmpRoot, 0o755)
@@ -241,6 +303,7 @@ func c20(args []string) int {
 	var sh *Shard
 	newShard := func() { sh = run.NewShard(header, "c20_case", "c20_mismatches") }
 	newShard()
+	extSh := run.NewShard(header, "ext_json_case", "ext_json_mismatches")
 
 	nHist := run.N(36, 400)
 	for h := 0; h < nHist; h++ {
@@ -335,6 +398,9 @@ func c20(args []string) int {
 					}
 				} else {
 					raw, _ = json.Marshal(map[string]interface{}{f.uniq("k"): f.anyJSON(0), "n": 12345678901234567})
+				}
+				if r.Pct(60) {
+					raw = f.extDoc(typ)
 				}
 				configmanager.SetExtend(typ, raw)
 				ops = append(ops, "SetExtend:"+typ)
@@ -443,6 +509,12 @@ func c20(args []string) int {
 				method = "POST"
 			}
 			_, body := adminGet(method, ep.Query)
+			if ep.Kind == "full" {
+				for rep := 0; rep < 5; rep++ { // the JSON-level redactor ranges over Go maps: another order every call
+					_, b2 := adminGet(method, ep.Query)
+					body += "\n" + b2
+				}
+			}
 			var found []string
 			classes := map[string]bool{}
 			for s, m := range placed {
@@ -490,6 +562,36 @@ func c20(args []string) int {
 				break
 			}
 		}
+		// the JSON-level redactor against its model: stored extension document -> document held by the redacted snapshot
+		if exts, ok := confField("ExtendConfigs").Interface().([]v2.ExtendConfig); ok {
+			seenOut := map[string]bool{}
+			for rep := 0; rep < 4; rep++ {
+				red := reflect.ValueOf(configmanager.VerifRedactedCopy()).Elem().FieldByName("ExtendConfigs").Interface().([]v2.ExtendConfig)
+				for i := range exts {
+					if i >= len(red) || len(exts[i].Config) == 0 {
+						continue
+					}
+					in, out := canonDoc(exts[i].Config), canonDoc(red[i].Config)
+					key := string(in) + "\x00" + string(out)
+					if seenOut[key] {
+						continue
+					}
+					seenOut[key] = true
+					ji, e1 := jsonToCoq(in)
+					jo, e2 := jsonToCoq(out)
+					if e1 != nil || e2 != nil {
+						continue
+					}
+					nk := len(jsonPrivateKeys(in))
+					extSh.Add("("+ji+", "+jo+")", map[string]interface{}{"kind": "ext-json", "type": exts[i].Type, "in": string(in), "out": string(out)})
+					run.Sum.Distribution[fmt.Sprintf("ext-json:keys=%d", nk)]++
+					if extSh.Len() >= 200 {
+						extSh.Close()
+						extSh = run.NewShard(header, "ext_json_case", "ext_json_mismatches")
+					}
+				}
+			}
+		}
 		// storage sharing between the redacted snapshot and the live config at written paths
 		var shared []string
 		sharedWrittenStorage(confValue(), reflect.ValueOf(configmanager.VerifRedactedCopy()).Elem(), "conf", &shared)
@@ -511,7 +613,64 @@ func c20(args []string) int {
 			newShard()
 		}
 	}
+	// ---- extension documents on their own: several extensions, only the full dump (the only endpoint that prints them)
+	for h := 0; h < run.N(60, 800); h++ {
+		configmanager.Reset()
+		f := &filler{r: r, maxDepth: 4}
+		var ops []string
+		for i, n := 0, 1+r.Intn(3); i < n; i++ {
+			typ := []string{"tunnel_agent", "other_ext", "holmes", "agents_ext"}[r.Intn(4)]
+			configmanager.SetExtend(typ, f.extDoc(typ))
+			ops = append(ops, "SetExtend:"+typ)
+		}
+		exts, _ := confField("ExtendConfigs").Interface().([]v2.ExtendConfig)
+		body := ""
+		for rep := 0; rep < 6; rep++ {
+			_, b := adminGet("GET", "")
+			body += "\n" + b
+		}
+		nMarkers := 0
+		for _, m := range f.markers {
+			nMarkers++
+			if strings.Contains(body, m.Secret) {
+				var docs []string
+				for _, e := range exts {
+					docs = append(docs, string(e.Config))
+				}
+				run.Fail("leak:full:"+m.Class, "config_dump returns the inline private key placed at "+m.Class, map[string]interface{}{"ops": ops, "extension_documents": docs, "marker": m.Secret})
+			}
+		}
+		run.Count(fmt.Sprintf("ext|%v|%d", ops, nMarkers), nMarkers > 0, "endpoint:full-extensions")
+		run.Sum.Distribution[fmt.Sprintf("ext-doc:markers=%d", nMarkers)]++
+		seenOut := map[string]bool{}
+		for rep := 0; rep < 3; rep++ {
+			red := reflect.ValueOf(configmanager.VerifRedactedCopy()).Elem().FieldByName("ExtendConfigs").Interface().([]v2.ExtendConfig)
+			for i := range exts {
+				if i >= len(red) {
+					continue
+				}
+				in, out := canonDoc(exts[i].Config), canonDoc(red[i].Config)
+				key := string(in) + "\x00" + string(out)
+				if seenOut[key] {
+					continue
+				}
+				seenOut[key] = true
+				ji, e1 := jsonToCoq(in)
+				jo, e2 := jsonToCoq(out)
+				if e1 != nil || e2 != nil {
+					continue
+				}
+				extSh.Add("("+ji+", "+jo+")", map[string]interface{}{"kind": "ext-json", "type": exts[i].Type, "in": string(in), "out": string(out)})
+				run.Sum.Distribution[fmt.Sprintf("ext-json:keys=%d", len(jsonPrivateKeys(in)))]++
+				if extSh.Len() >= 200 {
+					extSh.Close()
+					extSh = run.NewShard(header, "ext_json_case", "ext_json_mismatches")
+				}
+			}
+		}
+	}
 	sh.Close()
+	extSh.Close()
 	return run.Finish()
 }
 
